@@ -75,14 +75,19 @@ let () =
     | [hs; name] ->
       let hs = headers_of hs in
       let n = Http.hname_of (bytes_of_hex name) in
-      Printf.sprintf "first=%s all=[%s] rest=%s"
+      (* get_mut: the first header of that name, edited in place *)
+      let rec edit = function
+        | [] -> []
+        | (k, v) :: r -> if Http.hname_eqb k n then (k, v @ [n_of_int 33]) :: r else (k, v) :: edit r in
+      Printf.sprintf "first=%s all=[%s] rest=%s len=%d empty=%d mut=%s"
         (match Http.hget n hs with Some v -> hex_of_bytes v | None -> "none")
         (Stdlib.String.concat "," (Stdlib.List.map hex_of_bytes (Http.hget_all n hs)))
         (show_headers (Http.hremove n hs))
+        (Stdlib.List.length hs) (if hs = [] then 1 else 0) (show_headers (edit hs))
     | _ -> "BADARGS");
   register "cookies" (function
     | [v] ->
-      let cs = Http.cookies_of [ (Http.hname_of (bytes_of_hex "636f6f6b6965"), bytes_of_hex v) ] in
+      let cs = Http.cookies_of (if v = "-" then [] else [ (Http.hname_of (bytes_of_hex "636f6f6b6965"), bytes_of_hex v) ]) in
       "[" ^ Stdlib.String.concat "," (Stdlib.List.map (fun (k, x) -> hex_of_bytes k ^ "=" ^ hex_of_bytes x) cs) ^ "]"
     | _ -> "BADARGS");
   register "resp_parse" (function
